@@ -561,6 +561,74 @@ def check_remove_pbc_concrete(bi, depth):
     return None
 
 
+def check_remove_pbc_atoms(bi, depth, bonded, sel, seed):
+    """remove_pbc on a whole structure: two molecules (bonded chains; without a BondList: chains by chain id) and a lone
+    ion, every atom wrapped by an arbitrary lattice vector. Afterwards every atom has moved by a lattice vector, each
+    molecule has its unwrapped shape again, its centroid lies inside the box, atoms outside a selection stay where they
+    were, and nothing but coordinates changed (input untouched)."""
+    import numpy as np
+    import biotite.structure as struc
+    box = np.array(BOXES[bi], dtype=np.float64)
+    steps = np.array([[0.9, 0.3, -0.4], [0.7, -0.8, 0.5], [-0.2, 0.9, 0.9], [1.0, 0.1, 0.2]])
+    mol1 = np.cumsum(np.vstack([steps, steps[:1]]), axis=0) + 1.0           # 5 atoms
+    mol2 = np.cumsum(steps[1:], axis=0)[::-1] + np.array([2.0, 2.5, 1.0])    # 3 atoms
+    ion = np.array([[0.3, 0.2, 3.1]])
+    orig = np.vstack([mol1, mol2, ion])
+    n = len(orig)
+    mols = [list(range(0, 5)), list(range(5, 8)), [8]]
+    arr = struc.AtomArray(n)
+    arr.chain_id = np.array(["A"] * 5 + ["B"] * 3 + ["C"])
+    arr.res_id = np.array([1, 1, 2, 2, 3, 1, 1, 2, 1])
+    arr.res_name = np.array(["M1"] * 5 + ["M2"] * 3 + ["NA"])
+    arr.atom_name = np.array([f"X{i}" for i in range(n)])
+    arr.element = np.array(["C"] * 8 + ["NA"])
+    arr.box = box.astype(np.float32)
+    if bonded:
+        arr.bonds = struc.BondList(n, np.array([[0, 1, 1], [1, 2, 1], [2, 3, 2], [3, 4, 1], [5, 6, 1], [6, 7, 1]]))
+    models = []
+    for k in range(max(depth, 1)):
+        sh = np.array([[(a * 3 + k + seed) % 3 - 1, (a + 2 * k + seed) % 3 - 1, (a * a + k + 2 * seed) % 3 - 1] for a in range(n)], dtype=float)
+        models.append(orig + 0.37 * k + sh @ box)
+    if depth:
+        atoms = struc.stack([arr] * depth)
+        atoms.coord = np.array(models, dtype=np.float32)
+    else:
+        atoms = arr
+        atoms.coord = models[0].astype(np.float32)
+    before = atoms.copy()
+    selection = None if sel == 0 else np.array([True] * 5 + [False] * 4) if sel == 1 else np.array([False] * 5 + [True] * 4)
+    out = struc.remove_pbc(atoms) if selection is None else struc.remove_pbc(atoms, selection)
+    if type(out) is not type(atoms) or out.coord.shape != atoms.coord.shape:
+        return f"result {type(out).__name__} {out.coord.shape}"
+    if not np.array_equal(atoms.coord, before.coord):
+        return "the input structure was modified"
+    for cat in arr.get_annotation_categories():
+        if out.get_annotation(cat).tolist() != arr.get_annotation(cat).tolist():
+            return f"annotation {cat} changed"
+    if bonded and out.bonds.as_set() != arr.bonds.as_set():
+        return "bonds changed"
+    R = np.asarray(out.coord, dtype=float).reshape(-1, n, 3)
+    O = np.asarray(before.coord, dtype=float).reshape(-1, n, 3)
+    for k in range(len(R)):
+        fr = np.linalg.solve(box.T, (R[k] - O[k]).T).T
+        if np.abs(fr - np.round(fr)).max() > 3e-3:
+            return f"model {k}: atoms moved by non-lattice vectors (box {BOXES[bi]}, depth {depth}, bonded {bonded}, selection {sel})"
+        for mi, mol in enumerate(mols):
+            chosen = selection is None or bool(selection[mol[0]])
+            if not chosen:
+                if not np.array_equal(R[k][mol], O[k][mol]):
+                    return f"model {k}: molecule {mi} is outside the selection but moved"
+                continue
+            shape_now = R[k][mol] - R[k][mol][0]
+            shape_want = orig[mol] - orig[mol][0]
+            if np.abs(shape_now - shape_want).max() > 3e-3:
+                return f"model {k}: molecule {mi} is not reassembled (box {BOXES[bi]}, depth {depth}, bonded {bonded}, selection {sel})"
+            cf = np.linalg.solve(box.T, R[k][mol].mean(axis=0))
+            if cf.min() < -2e-3 or cf.max() > 1 + 2e-3:
+                return f"model {k}: centroid of molecule {mi} at fraction {cf.tolist()} is outside the box (box {BOXES[bi]}, bonded {bonded})"
+    return None
+
+
 def ob_geometry_concrete(tier):
     cases = []
     v = z3.Ints("i0 i1 i2 i3 ax an sh")
@@ -591,4 +659,9 @@ def ob_geometry_concrete(tier):
     cases.append(Case("remove_pbc_from_coord on wrapped chains", [b >= 0, b < len(BOXES), d >= 0, d <= 3],
                       lambda: check_remove_pbc_concrete(cur().choose(b, range(len(BOXES))), cur().choose(d, range(4))) is None,
                       dict(bi=b, depth=d), rep(check_remove_pbc_concrete, ["bi", "depth"])))
+    bd, sl, sd = z3.Ints("bd sl sd")
+    cases.append(Case("remove_pbc on structures with molecules", [b >= 0, b < len(BOXES), d >= 0, d <= 2, bd >= 0, bd <= 1, sl >= 0, sl <= 2, sd >= 0, sd <= 2],
+                      lambda: check_remove_pbc_atoms(cur().choose(b, range(len(BOXES))), cur().choose(d, range(3)), cur().choose(bd, range(2)),
+                                                     cur().choose(sl, range(3)), cur().choose(sd, range(3))) is None,
+                      dict(bi=b, depth=d, bonded=bd, sel=sl, seed=sd), rep(check_remove_pbc_atoms, ["bi", "depth", "bonded", "sel", "seed"])))
     return cases
